@@ -7,8 +7,11 @@ Property theorems only (helper lemmas live in `Lemmas/Cond.lean`).
 Model: `Model/Cond.lean` (`step`/`run`/`endPass` = `CodeIFs` of `asmif.c` + dispatch of `as.c Produce_Code`
 + balance check of `AssembleFile_ExitPass`), parameterised by `Cfg` (how far `CodeIFB` advances its argument
 index per iteration; whether a lone ELSECASE dereferences NULL; whether ENDCASE warns for a skipped SWITCH).
-Spec: `Spec/Cond.lean` (`sel`/`selB` = first true branch else default, `warnB`, `WellNested`), written from
-`doc/pseudo-instructions.md`.
+Spec: `Spec/Cond.lean` (`sel`/`selB` = the leaves of the first true branch else default, `warnB`, `WellNested`;
+`codeOf`/`definedBy`/`usedBy` = code, defined symbols, referenced symbols of a list of assembled leaves), written
+from `doc/pseudo-instructions.md`.  A leaf is an ordinary line; it may carry a label in front of an instruction, a
+pseudo-op, a macro call (with / without INTLABEL) or a structure instantiation, be an EQU/SET, or reference a symbol
+(`LeafKind`); the model transcribes `Produce_Code`'s label condition `IfAsm && (!IsMacro || !LocIntLabel)`.
 
 All statements quantify over *every* skeleton (any nesting depth, any number of branches, any mixture of the
 IF family and SWITCH, any CASE value lists) resp. over *every* statement list.
@@ -22,21 +25,34 @@ lines assembles exactly the leaves `selB` selects, in order; the IF stack is emp
 on, nothing crashed, and nothing but "no CASE hit" warnings was reported (in particular no "missing ENDIF"). -/
 theorem C12_select (cfg : Cfg) (b : Block) (hf : faithfulB cfg b = true) :
     let m := endPass (run cfg init (flatB b))
-    m.out.reverse = selB b ∧ m.stack = [] ∧ m.ifAsm = true ∧ m.crashed = false ∧ hardErrs m = [] := by
-  have h := flatB_ok (cfg := cfg) b init rfl
-  have hst : (run cfg init (flatB b)).stack = [] := h.stack
-  have hend : endPass (run cfg init (flatB b)) = run cfg init (flatB b) := by
-    simp [endPass, h.crashed, hst]
+    m.codes = codeOf (selB b) ∧ m.stack = [] ∧ m.ifAsm = true ∧ m.crashed = false ∧ hardErrs m = [] := by
+  obtain ⟨hend, hout, hst, hif, hcr, herr⟩ := select_out (cfg := cfg) b hf
   simp only [hend]
-  refine ⟨?_, hst, h.ifAsm, h.crashed, hard_of_warned h.errs⟩
-  rw [h.out, ← mselB_eq b hf]
-  simp [init]
+  exact ⟨by rw [M.codes, hout, evs_code], hst, hif, hcr, hard_of_warned herr⟩
+
+/-- **Only the labels of selected branches exist.**  After a whole pass over any (faithful) skeleton whose leaves
+carry labels in front of instructions, pseudo-ops, macro calls (with and without INTLABEL) and structure
+instantiations, EQU/SET definitions and symbol references, the symbols entered into the symbol table are exactly
+those the *selected* leaves define (`definedBy (selB b)` = union over the selected leaves of `Leaf.defines`), in
+order, and the symbols marked as referenced are exactly those the selected leaves reference. -/
+theorem C12_symbols (cfg : Cfg) (b : Block) (hf : faithfulB cfg b = true) :
+    let m := endPass (run cfg init (flatB b))
+    m.defs = definedBy (selB b) ∧ m.uses = usedBy (selB b) := by
+  obtain ⟨hend, hout, -⟩ := select_out (cfg := cfg) b hf
+  simp only [hend]
+  exact ⟨by rw [M.defs, hout, evs_define], by rw [M.uses, hout, evs_use]⟩
+
+/-- … as a statement about sets: a symbol is defined after the pass iff some selected leaf defines it. -/
+theorem C12_defined_iff (cfg : Cfg) (b : Block) (hf : faithfulB cfg b = true) (s : Nat) :
+    s ∈ (endPass (run cfg init (flatB b))).defs ↔ ∃ l ∈ selB b, s ∈ l.defines := by
+  rw [(C12_symbols cfg b hf).1]
+  simp [definedBy, List.mem_flatMap]
 
 /-- With a `CodeIFB` that looks at every argument (`ifbStride = 1`, the repaired code) the selection theorem
 holds for all skeletons without any side condition. -/
 theorem C12_select_all_args (cfg : Cfg) (h1 : cfg.ifbStride = 1) (b : Block) :
     let m := endPass (run cfg init (flatB b))
-    m.out.reverse = selB b ∧ m.stack = [] ∧ m.ifAsm = true ∧ m.crashed = false ∧ hardErrs m = [] :=
+    m.codes = codeOf (selB b) ∧ m.stack = [] ∧ m.ifAsm = true ∧ m.crashed = false ∧ hardErrs m = [] :=
   C12_select cfg b (faithfulB_stride1 cfg h1 b)
 
 /-- Skeletons without IFB/IFNB are faithful for every configuration: the hypothesis of `C12_select` only ever
@@ -49,7 +65,8 @@ theorem C12_faithful_without_ifb (cfg : Cfg) (c : Cond) (h : ∀ neg nb, c ≠ .
   | blank neg nb => exact absurd rfl (h neg nb)
 
 /-- **Other branches are inert.**  Whatever well-nested text stands in a part that is not assembled (`IfAsm`
-false) — any skeleton, faithful or not, of any depth — it emits nothing, leaves the IF stack and `IfAsm` as they
+false) — any skeleton, faithful or not, of any depth, whatever labels its lines carry — it leaves no event (no
+code byte, no symbol definition, no reference: `out` is the event list), leaves the IF stack and `IfAsm` as they
 were, cannot crash, and reports no error. -/
 theorem C12_other_branches_inert (cfg : Cfg) (b : Block) (m : M) (hc : m.crashed = false)
     (hoff : m.ifAsm = false) :
@@ -59,17 +76,25 @@ theorem C12_other_branches_inert (cfg : Cfg) (b : Block) (m : M) (hc : m.crashed
   have h := flatB_ok (cfg := cfg) b m hc
   refine ⟨by rw [h.out]; simp [hoff], h.stack, by rw [h.ifAsm, hoff], h.crashed, h.errs⟩
 
+/-- In particular a part that is not assembled defines no symbol, whatever stands in the label fields of its lines. -/
+theorem C12_skipped_defines_nothing (cfg : Cfg) (b : Block) (m : M) (hc : m.crashed = false)
+    (hoff : m.ifAsm = false) :
+    (run cfg m (flatB b)).defs = m.defs ∧ (run cfg m (flatB b)).uses = m.uses ∧ (run cfg m (flatB b)).codes = m.codes := by
+  have h := (C12_other_branches_inert cfg b m hc hoff).1
+  simp only [M.defs, M.uses, M.codes, h, and_self]
+
 /-- … and, as a consequence, the text of the branches that are not selected does not influence what a live
 ladder assembles: replacing them by anything else gives the same code (`sel` does not look at them). -/
 theorem C12_unselected_irrelevant (cfg : Cfg) (c : Bool) (b b' : Block) (e : Elifs)
     (hb : faithfulB cfg b = true) (hb' : faithfulB cfg b' = true) (he : faithfulE cfg e = true) (hc : c = false) :
     (endPass (run cfg init (flat (.ladder (.expr c) b e)))).out =
     (endPass (run cfg init (flat (.ladder (.expr c) b' e)))).out := by
-  have h1 := C12_select cfg (.cons (.ladder (.expr c) b e) .nil) (by simp [faithfulB, faithful, evalCond, Cond.holds, hb, he])
-  have h2 := C12_select cfg (.cons (.ladder (.expr c) b' e) .nil) (by simp [faithfulB, faithful, evalCond, Cond.holds, hb', he])
+  have h1 := select_out (cfg := cfg) (.cons (.ladder (.expr c) b e) .nil) (by simp [faithfulB, faithful, evalCond, Cond.holds, hb, he])
+  have h2 := select_out (cfg := cfg) (.cons (.ladder (.expr c) b' e) .nil) (by simp [faithfulB, faithful, evalCond, Cond.holds, hb', he])
   simp only [flatB, List.append_nil] at h1 h2
-  have e1 := h1.1
-  have e2 := h2.1
+  rw [h1.1, h2.1]
+  have e1 := h1.2.1
+  have e2 := h2.2.1
   subst hc
   simp only [selB, sel, Cond.holds, List.append_nil] at e1 e2
   have := e1.trans e2.symm
@@ -111,7 +136,7 @@ theorem C12_unbalanced_reported (cfg : Cfg) (hfix : cfg.elsecaseNullCrash = fals
       apply ih
       unfold step
       rw [if_neg (by simp [hm])]
-      cases s <;> simp only [codeIF, codeELSEIF, codeENDIF, codeSWITCH, codeCASE, codeELSECASE, codeENDCASE, pushIF, M.err, hfix] <;>
+      cases s <;> simp only [labelPart, codeIF, codeELSEIF, codeENDIF, codeSWITCH, codeCASE, codeELSECASE, codeENDCASE, pushIF, M.err, hfix] <;>
         (repeat' split) <;> simp_all
   rcases C12_unbalanced cfg ss h with hb | hb
   · have hc := never ss init rfl
@@ -142,15 +167,18 @@ theorem C12_skeletons_wellnested (b : Block) :
     WellNested (flatB b) ∧ ∀ t ∈ flatB b, t.argsOK = true :=
   ⟨wn_flatB b [], argsOK_flatB b⟩
 
+/-- an unlabelled leaf `db n` -/
+abbrev pl (n : Nat) : Skel := .leaf { marker := n }
+
 /-! ## defects of the pinned tree, as proved statements about the model with the pinned configuration -/
 
 /-- `CodeIFB` with two increments per iteration judges `IFB ,x` blank: the documented selection is `[2]`, the
 machine assembles `[1, 2]`.  (Known finding `ifb-every-second-argument-skipped`.) -/
 theorem C12_finding_ifb_second_argument :
-    let b : Block := .cons (.ladder (.blank false [false, true]) (.cons (.leaf 1) .nil) .done) (.cons (.leaf 2) .nil)
-    faithfulB { ifbStride := 2 } b = false ∧ selB b = [2] ∧
-      (endPass (run { ifbStride := 2 } init (flatB b))).out.reverse = [1, 2] ∧
-      (endPass (run { ifbStride := 1 } init (flatB b))).out.reverse = [2] := by decide
+    let b : Block := .cons (.ladder (.blank false [false, true]) (.cons (pl 1) .nil) .done) (.cons (pl 2) .nil)
+    faithfulB { ifbStride := 2 } b = false ∧ codeOf (selB b) = [2] ∧
+      (endPass (run { ifbStride := 2 } init (flatB b))).codes = [1, 2] ∧
+      (endPass (run { ifbStride := 1 } init (flatB b))).codes = [2] := by decide
 
 /-- A SWITCH without CASE/ELSECASE inside a branch that is not assembled still reports warning 100, although
 the documented number of warnings (`warnB`) is 0.  (Known finding `dead-armless-switch-warns`.) -/
@@ -167,19 +195,31 @@ theorem C12_finding_lone_elsecase :
 
 /-! ## non-vacuity -/
 
-example : faithfulB {} (.cons (.ladder (.blank false [false, false, true]) (.cons (.leaf 1) .nil) .done) .nil) = true := by decide
+example : faithfulB {} (.cons (.ladder (.blank false [false, false, true]) (.cons (pl 1) .nil) .done) .nil) = true := by decide
 
-example : (endPass (run {} init (flatB (.cons (.ladder (.expr false) (.cons (.leaf 1) .nil)
-    (.elif true (.cons (.switch (.int 3) (.cons (.leaf 2) .nil)
-        (.case (.int 1) [.int 2] (.cons (.leaf 3) .nil)
-          (.case (.int 3) [.int 4] (.cons (.leaf 4) .nil)
-            (.case (.int 3) [] (.cons (.leaf 5) .nil) (.elsecase (.cons (.leaf 6) .nil)))))) .nil)
-      (.els (.cons (.leaf 7) .nil)))) (.cons (.leaf 8) .nil))))).out.reverse = [2, 4, 8] := by decide
+example : (endPass (run {} init (flatB (.cons (.ladder (.expr false) (.cons (pl 1) .nil)
+    (.elif true (.cons (.switch (.int 3) (.cons (pl 2) .nil)
+        (.case (.int 1) [.int 2] (.cons (pl 3) .nil)
+          (.case (.int 3) [.int 4] (.cons (pl 4) .nil)
+            (.case (.int 3) [] (.cons (pl 5) .nil) (.elsecase (.cons (pl 6) .nil)))))) .nil)
+      (.els (.cons (pl 7) .nil)))) (.cons (pl 8) .nil))))).codes = [2, 4, 8] := by decide
+
+/-- labels: the same label in front of a macro call in the IF and in the ELSE branch (only the selected one
+defines it), a label in a CASE branch that is not selected, an INTLABEL macro (no symbol), a structure
+instantiation (label and element symbol), an EQU inside IFNDEF-style text -/
+example :
+    let b : Block :=
+      .cons (.ladder (.expr false) (.cons (.leaf ⟨1, .macro, 7⟩) .nil) (.els (.cons (.leaf ⟨2, .macro, 7⟩) .nil)))
+      (.cons (.switch (.int 2) .nil (.case (.int 1) [] (.cons (.leaf ⟨3, .instr, 8⟩) .nil)
+          (.case (.int 2) [] (.cons (.leaf ⟨4, .macroInt, 9⟩) (.cons (.leaf ⟨5, .struct, 10⟩) .nil)) .done)))
+      (.cons (.ladder (.sym .defined true false) (.cons (.leaf ⟨6, .equ, 11⟩) .nil) .done) .nil))
+    (endPass (run {} init (flatB b))).defs = [7, 10, 510, 11] ∧ (endPass (run {} init (flatB b))).codes = [2, 4] ∧
+      definedBy (selB b) = [7, 10, 510, 11] := by decide
 
 example : ¬ WellNested [.iff 1 (.expr true), .elseif 0 false, .elseif 1 true, .endif 0] := by decide
 example : ¬ WellNested [.switch 1 (.int 1), .elsecase 0, .case [.int 1], .endcase 0] := by decide
 example : ¬ WellNested [.iff 1 (.expr true)] := by decide
-example : WellNested [.iff 1 (.expr false), .switch 1 (.int 1), .leaf 1, .case [.int 1], .elsecase 0, .endcase 0,
+example : WellNested [.iff 1 (.expr false), .switch 1 (.int 1), .leaf { marker := 1 }, .case [.int 1], .elsecase 0, .endcase 0,
     .elseif 1 true, .elseif 0 false, .endif 0] := by decide
 
 end AslModel.C12
